@@ -9,4 +9,5 @@ INVARIANT OrderInv
 INVARIANT ShapeInv
 INVARIANT StageFromSlot
 INVARIANT ParseInv
+INVARIANT ChecksumInv
 CHECK_DEADLOCK FALSE
